@@ -40,6 +40,9 @@ pub trait CT: PixelColor + core::fmt::Debug {
     const MAXES: [u8; 3];
     /// `Raw::from_u32(v)`: (inner value, colour built from it)
     fn from_u32(v: u32) -> (u32, Self);
+    /// the other two public ways to build the raw value, from the storage integer `v as Storage`:
+    /// (`Raw::from(storage)`, `Raw::new(storage)`) as inner values
+    fn from_storage(v: u32) -> (u32, u32);
     fn raw(self) -> u32;
     fn storage(self) -> u32;
     fn be(self) -> Vec<u8>;
@@ -63,6 +66,12 @@ macro_rules! ct_common {
         fn from_u32(v: u32) -> (u32, Self) {
             let raw = <<$t as PixelColor>::Raw as RawData>::from_u32(v);
             (raw.into_inner() as u32, <$t>::from(raw))
+        }
+        fn from_storage(v: u32) -> (u32, u32) {
+            type R = <$t as PixelColor>::Raw;
+            type S = <R as RawData>::Storage;
+            let st = v as S;
+            (R::from(st).into_inner() as u32, R::new(st).into_inner() as u32)
         }
         fn raw(self) -> u32 {
             let r: <$t as PixelColor>::Raw = self.into();
@@ -274,6 +283,16 @@ fn op_raw<C: CT>(v: u32, ctx: &mut Ctx) -> String {
     let raw2 = c2.raw();
     ctx.expect(raw2 == raw1 && c2 == c, "C12:raw-to-raw-not-idempotent", || format!("{} {:#x} -> {:#x} -> {:#x}", C::NAME, raw0, raw1, raw2));
     ctx.expect((raw0 as u64) < (1u64 << C::BPP), "C12:raw-does-not-fit", || format!("{} from_u32({:#x}) = {:#x}", C::NAME, v, raw0));
+    // every public way to build the raw value masks alike: `Raw::from(storage)` and `Raw::new(storage)` keep exactly the
+    // low BITS_PER_PIXEL bits of the storage integer (seeded change C12-r3-3 skipped the mask in `From<u32> for RawU24`)
+    {
+        let (via_from, via_new) = C::from_storage(v);
+        let storage_mask: u64 = if C::STORAGE_BITS >= 32 { u32::MAX as u64 } else { (1u64 << C::STORAGE_BITS) - 1 };
+        let want = ((v as u64 & storage_mask) & ((1u64 << C::BPP) - 1)) as u32;
+        ctx.expect(via_from == want && via_new == want, "C12:raw-from-storage-not-masked", || {
+            format!("{} storage {:#x}: From gives {:#x}, new gives {:#x}, expected {:#x}", C::NAME, v, via_from, via_new, want)
+        });
+    }
     if raw1 != raw0 {
         ctx.count("raw:unused-bits-set");
     } else if (v as u64) >= (1u64 << C::BPP) {
